@@ -796,7 +796,20 @@ Counter(cfg, S) ==
     ELSE IF cfg.stop = "Arrive" THEN S.created
     ELSE S.accepted
 
+\* the four counters simulate_until_max_customers may stop on, recomputed from what the event did
+F_C14_counters(cfg, pre, post) ==
+    LET newExit == (Len(pre.exit) + 1)..Len(post.exit)
+        completedNow == {a \in newExit : LET l == LastOf(pre, post, post.exit[a])
+                                          IN l.type = "service" /\ l.dest = EXIT}
+        newAccepted == {post.steps[a].i : a \in {b \in IdxOf(post, "accept") : post.steps[b].i > pre.created}}
+    IN Chk("C14.counters-are-true",
+           post.completed - pre.completed = Cardinality(completedNow)
+           /\ post.nexit - pre.nexit = Len(post.exit) - Len(pre.exit)
+           /\ post.accepted - pre.accepted = Cardinality(newAccepted)
+           /\ post.created - pre.created = Cardinality({post.steps[a].i : a \in IdxOf(post, "admit")}))
+
 F_C14_step(cfg, pre, post) ==
+    F_C14_counters(cfg, pre, post) \cup
     IF cfg.stop = "time"
     THEN Chk("C14.only-events-before-horizon", post.ev.date < cfg.T)
     ELSE IF cfg.stop = "deadlock" THEN {}
